@@ -113,7 +113,8 @@ class PoolLike:
         out = [None] * len(xs)
         for i in order:
             out[i] = f(xs[i])
-        return out
+        # "lazy": the ordered results as an iterator (what concurrent.futures executors hand back)
+        return iter(out) if self.mode == "lazy" else out
 
 
 class RichPool(PoolLike):
@@ -172,7 +173,7 @@ def sweep(run, tier, rng):
     for ci, cfg in enumerate(cfgs):
         for blobs in ([False, True] if tier != "quick" or ci == 0 else [False]):
             seed = rng.randrange(10 ** 6)
-            strategies = ["scalar", "inorder", "reversed", "shuffled", "richpool"] + ([] if blobs else ["vectorize", "vectorize-buffer"]) \
+            strategies = ["scalar", "inorder", "reversed", "shuffled", "lazy", "richpool"] + ([] if blobs else ["vectorize", "vectorize-buffer"]) \
                 + (["intpool"] if ci == 0 and not blobs else [])
             res = {}
             for st in strategies:
@@ -199,6 +200,33 @@ def sweep(run, tier, rng):
                                  cfg=cfg, blobs=blobs, strategy=st, random_state=seed)
             if ci == 0 and not blobs and "scalar" in res:
                 run.sample(dict(cfg=cfg, seed=seed, calls=res["scalar"][1], rows=res["scalar"][2], strategies=strategies))
+
+
+def batch_size_probe(run, rng):
+    """the core's batch evaluation (what every step calls) is map(f) for every batch size, in every strategy: sizes around
+    powers of two and large odd sizes included"""
+    from tempest import Sampler
+    f = Counter(False, hole=True)
+    for strategy in ("scalar", "vectorize", "inorder"):
+        kw = {}
+        like = f.scalar
+        if strategy == "vectorize":
+            like, kw["vectorize"] = f.vec, True
+        elif strategy == "inorder":
+            kw["pool"] = PoolLike("inorder", 1)
+        s = Sampler(lambda u: 6 * u - 3, like, n_dim=2, n_particles=8, random_state=1, clustering=False, **kw)
+        for n in (1, 7, 64, 1023, 1024, 1025, 2500):
+            X = np.random.RandomState(n).randn(n, 2) * 1.5
+            want = np.array([Counter(False, hole=True).scalar(x) for x in X])
+            before = int(s._core.state.get_current("calls") or 0) if hasattr(s._core, "state") else 0
+            out = s._core._log_like(X)
+            got = np.asarray(out[0] if isinstance(out, tuple) else out, dtype=float)
+            run.case(key=("batch", strategy, n), nontrivial=n > 1)
+            if got.shape != want.shape or not np.array_equal(got, want):
+                bad = int(np.sum(got != want)) if got.shape == want.shape else -1
+                run.fail("strategy-changes-results", f"{strategy} evaluation of a batch of {n} points differs from point-by-point evaluation in {bad} entries",
+                         strategy=strategy, batch_size=n)
+                break
 
 
 def manual_loop(run, rng):
@@ -235,6 +263,7 @@ def main(tier, seed):
     try:
         sweep(run, tier, rng)
         manual_loop(run, rng)
+        batch_size_probe(run, rng)
     except Exception:
         import traceback
         run.broken.append(("harness-exception", traceback.format_exc()[-1500:]))
